@@ -34,7 +34,7 @@ _LIB = None
 def lib():
     global _LIB
     if _LIB is None:
-        _LIB, _ = T.library(REPO)
+        _LIB, _ = T.library(REPO, strict=False)  # the strict run is the translator step (ctx.translate)
         # model names (v*, c*, d*, r*, q0, s0*) never coincide with a parameter name of a library function:
         # `fn_to_sympy` substitutes sequentially and would capture them (F-C06-4, C06's subject)
         for ent in _LIB.values():
@@ -381,7 +381,14 @@ def gen_content(rng, *, rational=False, p_odd=0.25, stiff=False):
     return {"vars": vars_, "pars": pars, "derived": derived, "rxns": rxns, "surs": surs}
 
 
+def _avail(names):
+    out = [n for n in names if n in lib()]
+    return out or ["constant"]
+
+
 def _mk(rng, name, src):
+    if name not in lib():
+        name = rng.choice(_avail(RATE_FNS_POLY + DER_FNS_POLY))
     ar = len(lib()[name]["args"])
     if len(src) >= ar and rng.random() < 0.8:
         args = rng.sample(src, ar)
@@ -411,42 +418,47 @@ def shape_of(content, status) -> str:
 
 
 def corpus():
-    def base():
-        return {"vars": [["v0", {"v": "1"}], ["v1", {"v": "2"}]],
-                "pars": [["c0", {"v": "2"}], ["c1", {"v": "3"}]], "derived": [], "rxns": [], "surs": []}
+    def base(**kw):
+        c = {"vars": [["v0", {"v": "1"}], ["v1", {"v": "2"}]],
+             "pars": [["c0", {"v": "2"}], ["c1", {"v": "3"}]], "derived": [], "rxns": [], "surs": []}
+        c.update(kw)
+        return c
 
+    def rxn(name, args, st):
+        return dict(fn_ref(name, args), st=st)
+
+    builders = [
+        # derived declared after its user (F-C12-2 on the pinned tree)
+        ("decl-order", lambda: base(
+            derived=[["d1", fn_ref("add", ["d0", "v1"])], ["d0", fn_ref("mul", ["c0", "v0"])]],
+            rxns=[["r0", rxn("mass_action_1s", ["d1", "c1"], [["v0", {"c": "-1"}], ["v1", {"c": "1"}]])]])),
+        # plain Jacobian use (F-C12-1 on the pinned tree)
+        ("jac-closure", lambda: base(
+            rxns=[["r0", rxn("mass_action_2s", ["v0", "v1", "c0"], [["v0", {"c": "-1"}], ["v1", {"c": "2"}]])],
+                  ["r1", rxn("michaelis_menten_1s", ["v1", "c1", "c0"], [["v1", {"c": "-1"}]])]])),
+        # state-dependent coefficient with a rate that sympy collapses to an integer (F-C12-3 on the pinned tree)
+        ("dyn-coef-int-rate", lambda: base(
+            derived=[["d0", fn_ref("minus", ["v0", "v0"])]],
+            rxns=[["r0", rxn("constant", ["d0"], [["v0", fn_ref("mul", ["v1", "c0"])], ["v1", {"c": "1"}]])]])),
+        # state-dependent coefficient, ordinary rate
+        ("dyn-coef", lambda: base(
+            rxns=[["r0", rxn("mass_action_1s", ["v0", "c1"], [["v0", fn_ref("mul", ["v1", "c0"])], ["v1", {"c": "1"}]])]])),
+        # parameter defined by an initial assignment, declared first, not used by any equation
+        ("ia-par-unused", lambda: base(
+            pars=[["q0", {"ia": fn_ref("twice", ["c0"])}], ["c0", {"v": "2"}], ["c1", {"v": "3"}]],
+            rxns=[["r0", rxn("mass_action_1s_1p", ["v0", "v1", "c0", "c1"], [["v0", {"c": "-1"}], ["v1", {"c": "1"}]])]])),
+        # variable without a reaction; time as an argument
+        ("var-without-eq", lambda: base(
+            rxns=[["r0", rxn("mass_action_1s", ["v0", "c0"], [["v0", {"c": "-1"}]])]])),
+        ("time-arg", lambda: base(
+            rxns=[["r0", rxn("mass_action_1s", ["time", "c0"], [["v0", {"c": "-1"}], ["v1", {"c": "1"}]])]])),
+    ]
     out = []
-    # derived declared after its user (F-C12-2 on the pinned tree)
-    c = base()
-    c["derived"] = [["d1", fn_ref("add", ["d0", "v1"])], ["d0", fn_ref("mul", ["c0", "v0"])]]
-    c["rxns"] = [["r0", dict(fn_ref("mass_action_1s", ["d1", "c1"]), st=[["v0", {"c": "-1"}], ["v1", {"c": "1"}]])]]
-    out.append(("decl-order", c))
-    # plain Jacobian use (F-C12-1 on the pinned tree)
-    c = base()
-    c["rxns"] = [["r0", dict(fn_ref("mass_action_2s", ["v0", "v1", "c0"]), st=[["v0", {"c": "-1"}], ["v1", {"c": "2"}]])],
-                 ["r1", dict(fn_ref("michaelis_menten_1s", ["v1", "c1", "c0"]), st=[["v1", {"c": "-1"}]])]]
-    out.append(("jac-closure", c))
-    # state-dependent coefficient with a rate that sympy collapses to an integer (F-C12-3 on the pinned tree)
-    c = base()
-    c["derived"] = [["d0", fn_ref("minus", ["v0", "v0"])]]
-    c["rxns"] = [["r0", dict(fn_ref("constant", ["d0"]), st=[["v0", fn_ref("mul", ["v1", "c0"])], ["v1", {"c": "1"}]])]]
-    out.append(("dyn-coef-int-rate", c))
-    # state-dependent coefficient, ordinary rate
-    c = base()
-    c["rxns"] = [["r0", dict(fn_ref("mass_action_1s", ["v0", "c1"]), st=[["v0", fn_ref("mul", ["v1", "c0"])], ["v1", {"c": "1"}]])]]
-    out.append(("dyn-coef", c))
-    # parameter defined by an initial assignment, not used by any equation
-    c = base()
-    c["pars"] = [["q0", {"ia": fn_ref("twice", ["c0"])}]] + c["pars"]
-    c["rxns"] = [["r0", dict(fn_ref("mass_action_1s_1p", ["v0", "v1", "c0", "c1"]), st=[["v0", {"c": "-1"}], ["v1", {"c": "1"}]])]]
-    out.append(("ia-par-unused", c))
-    # variable without a reaction; time as an argument
-    c = base()
-    c["rxns"] = [["r0", dict(fn_ref("mass_action_1s", ["v0", "c0"]), st=[["v0", {"c": "-1"}]])]]
-    out.append(("var-without-eq", c))
-    c = base()
-    c["rxns"] = [["r0", dict(fn_ref("mass_action_1s", ["time", "c0"]), st=[["v0", {"c": "-1"}], ["v1", {"c": "1"}]])]]
-    out.append(("time-arg", c))
+    for tag, build in builders:
+        try:
+            out.append((tag, build()))
+        except KeyError:  # a library function left the translatable fragment (the translator step reports it)
+            pass
     pts = [{"t": "0", "x": ["1", "2"]}, {"t": "1", "x": ["3", "5"]}]
     return [{"content": c, "points": pts, "tag": tag} for tag, c in out]
 
